@@ -57,8 +57,9 @@ func ruleJoinDispatch(rule string) func(*Ctx) {
 							perps = append(perps, cl)
 						}
 					}
-					if !strings.HasSuffix(perps[0].args[2].expr, "normals[*k]") || !strings.HasSuffix(perps[1].args[2].expr, "normals[j]") {
-						bad = fmt.Sprintf("concave arm emits perpendiculars for %s then %s, want previous normal (normals[*k]) then current (normals[j])", perps[0].args[2].expr, perps[1].args[2].expr)
+					n0, n1 := roleArg(perps[0], "norm", 2).expr, roleArg(perps[1], "norm", 2).expr
+					if !strings.HasSuffix(n0, "normals[*k]") || !strings.HasSuffix(n1, "normals[j]") {
+						bad = fmt.Sprintf("concave arm emits perpendiculars for %s then %s, want previous normal (normals[*k]) then current (normals[j])", n0, n1)
 					}
 				case len(made) == 1 && nPerp == 0:
 					got[made[0]] = true
@@ -482,7 +483,7 @@ func ruleEndDispatch(rule string) func(*Ctx) {
 				}
 				for k := range h.Params {
 					a0, a1 := sites[0].Common().Args[k], sites[1].Common().Args[k]
-					if isConstInt(a0, 0) && (isLenMinus1(a1, f.Params[2]) || valueName(a1) == "highI") {
+					if isConstInt(a0, 0) && (isLenMinus1(a1, param(f, "path", 2)) || valueName(a1) == "highI") {
 						expF = h
 						starts = []*ssa.BasicBlock{hs[0], hs[0]}
 						idx = []string{h.Params[k].Name(), h.Params[k].Name()}
@@ -827,7 +828,7 @@ func ruleMinkowski(rule string) func(*Ctx) {
 				// only the phis right after the `if isClosed` diamonds (not loop-carried values); roles by shape:
 				// both arms constant = the step `delta`; otherwise the first predecessor index `g`
 				tv, fv, cond := phiByCond(phi)
-				if cond == nil || cond != ssa.Value(f.Params[3]) {
+				if cond == nil || cond != ssa.Value(param(f, "isClosed", 3)) {
 					continue
 				}
 				_, tc := tv.(*ssa.Const)
@@ -840,7 +841,7 @@ func ruleMinkowski(rule string) func(*Ctx) {
 				} else {
 					nG++
 					bo, ok := tv.(*ssa.BinOp)
-					if !ok || bo.Op != token.SUB || !isConstInt(bo.Y, 1) || !isLenOf(bo.X, f.Params[1]) || !isConstInt(fv, 0) {
+					if !ok || bo.Op != token.SUB || !isConstInt(bo.Y, 1) || !isLenOf(bo.X, param(f, "path", 1)) || !isConstInt(fv, 0) {
 						bad = "the first predecessor index is not len(path)-1 for closed / 0 for open paths"
 					}
 				}
@@ -1656,4 +1657,16 @@ func isLenOf(v ssa.Value, p *ssa.Parameter) bool {
 	}
 	a := call.Call.Args[0]
 	return a == ssa.Value(p) || paramOf(a) == p
+}
+
+// roleArg: the argument of a recorded call that feeds the callee parameter of the given name (or position).
+func roleArg(cl callRec, role string, pos int) symVal {
+	k := pos
+	if cl.instr != nil {
+		k = roleIndex(cl.instr, role, pos)
+	}
+	if k >= 0 && k < len(cl.args) {
+		return cl.args[k]
+	}
+	return symVal{}
 }
